@@ -42,8 +42,11 @@ Section Hash.
 
   Definition txns_root (txs : list bytes) : bytes := binary_root H txs.
 
+  (* the code compares the root first; the conjunction is commutative and the count is tested
+     first here so that the (lazy) model does not hash blocks whose count already disagrees,
+     e.g. the boundary class of more than u16::MAX transactions *)
   Definition validate_transactions (h : header) (txs : list bytes) : bool :=
-    bytes_eqb (txns_root txs) (tx_root h) && (N.of_nat (length txs) =? tx_count h).
+    (N.of_nat (length txs) =? tx_count h) && bytes_eqb (txns_root txs) (tx_root h).
 
   (* what the verifier reads from the database about the parent height *)
   Record parent := { p_root : option bytes; p_header : option (N * N) (* da height, time *) }.
@@ -219,12 +222,28 @@ Definition T_sig (t : T) : option (option N * bytes) :=
   | L [s; id] => match getOptN s, getBytes id with Some s, Some id => Some (s, id) | _, _ => None end
   | _ => None
   end.
+(* transaction lists may be run-length encoded: an item (-1 n bytes) stands for n copies *)
+Fixpoint T_txs (l : list T) : option (list bytes) :=
+  match l with
+  | [] => Some []
+  | L [I (Zneg xH); n; b] :: r =>
+      match getN n, getBytes b, T_txs r with
+      | Some n, Some b, Some rest => Some (repeat b (N.to_nat n) ++ rest)
+      | _, _, _ => None
+      end
+  | x :: r =>
+      match getBytes x, T_txs r with
+      | Some b, Some rest => Some (b :: rest)
+      | _, _ => None
+      end
+  end.
+
 (* one block: (kind sig header txs) *)
 Definition blk := (N * (option N * bytes) * header * list bytes)%type.
 Definition T_blk (t : T) : option blk :=
   match t with
   | L [k; s; h; L txs] =>
-      match getN k, T_sig s, T_header h, mapM getBytes txs with
+      match getN k, T_sig s, T_header h, T_txs txs with
       | Some k, Some s, Some h, Some txs => Some (k, s, h, txs)
       | _, _, _, _ => None
       end
